@@ -728,7 +728,7 @@ def c17_scale(ctx, repo):
 
 ALL_C07 = [c07_subsetter]
 ALL_C08 = [c08_instancer]
-ALL_C17 = [c17_reorder, c17_scale]
+ALL_C17 = [c17_reorder, c17_scale]  # + skip_audit (defined below) appended at the end of the module
 
 
 # ---------------------------------------------------------------------------
@@ -878,3 +878,91 @@ def c08_distance_carry(ctx, repo):
             degenerate = (len(args) == 3 and len(set(args)) == 1) or args == ["-1", "0", "+1"] or args == ["-1", "0", "1"]
             ok = has_dist or degenerate
             ctx.ob("DIST", f"{rel}:{_func_qual_of(mod, c)}", f"NormalizedAxisTripleAndDistances({', '.join(args)[:70]})", ok, "" if ok else "a real range is built with the default 1:1 distances: renormalisation uses different weights than the rebased tents")
+
+
+# ---------------------------------------------------------------------------
+# SKIP: records skipped by a whole-font transformation are an audited set of conditions
+# ---------------------------------------------------------------------------
+SKIP_AUDIT = {
+    "ttLib/scaleUpem.py": {
+        "xy is None": "inferred delta (IUP) carries no value to scale",
+        "value is None": "absent optional dict operator",
+        "op == 'vsindex'": "vsindex operand is an index, not a length",
+        "g.isComposite()": "composite glyph: offsets scaled just above, no own coordinates",
+    },
+    "ttLib/reorderGlyphs.py": {
+        "key not in font": "table absent from the font",
+        "not table": "table absent from the font",
+    },
+}
+
+
+def skip_audit(ctx, repo, rels=("ttLib/scaleUpem.py",), rule="SKIP"):
+    ctx.rule(rule, "a whole-font rewrite skips a record (continue / early return inside its loops) only under an audited condition; a new skip leaves some records in the old units or numbering", floor=4)
+    for rel in rels:
+        mod = repo.mod(rel)
+        audit = SKIP_AUDIT.get(rel, {})
+        for q, f in sorted(mod.funcs.items()):
+            for st in walk_no_nested(f.node):
+                if not isinstance(st, ast.Continue):
+                    continue
+                conds = [norm(t) if pol else f"not ({norm(t)})" for t, pol in guard_conditions(st)]
+                # only the conditions inside the innermost loop matter
+                loop = parent(st)
+                while loop is not None and not isinstance(loop, (ast.For, ast.While)):
+                    loop = parent(loop)
+                inner = []
+                for t, pol in guard_conditions(st):
+                    p = t
+                    inside = False
+                    while p is not None and p is not f.node:
+                        if p is loop:
+                            inside = True
+                            break
+                        p = parent(p)
+                    if inside:
+                        inner.append(norm(t) if pol else f"not ({norm(t)})")
+                ok = bool(inner) and any(c in audit for c in inner)
+                ctx.ob(rule, f"{rel}:{q}", f"continue under {inner}", ok, ("audited: " + "; ".join(audit[c] for c in inner if c in audit)) if ok else "records matching this condition are left untouched")
+
+ALL_C17.append(skip_audit)
+
+
+# ---------------------------------------------------------------------------
+# IUP-ref: inferred deltas are interpolated against the untouched default outline
+# ---------------------------------------------------------------------------
+def iup_reference(ctx, repo, rels=("varLib/mutator.py", "varLib/instancer/__init__.py", "ttLib/ttGlyphSet.py", "ttLib/tables/TupleVariation.py")):
+    ctx.rule("IUP-ref", "the reference coordinates handed to iup_delta / calcInferredDeltas are the default-master outline: a variable that the same function accumulates deltas into (+=, item store, in-place transform) is never used as the reference", floor=3)
+    MUT = {"translate", "scale", "transform", "append", "extend", "toInt", "relativeToAbsolute", "absoluteToRelative"}
+    for rel in rels:
+        mod = repo.mod(rel)
+        for q, f in sorted(mod.funcs.items()):
+            for c in calls_in(f.node, nested=False):
+                la = last_attr(c)
+                if la == "iup_delta" and len(c.args) >= 2:
+                    ref = c.args[1]
+                elif la == "calcInferredDeltas" and len(c.args) >= 1:
+                    ref = c.args[0]
+                else:
+                    continue
+                rn = norm(ref)
+                names = {rn}
+                for n in walk_no_nested(f.node):  # one level of aliasing: ref = other / ref, x = other, y
+                    if isinstance(n, ast.Assign) and isinstance(n.value, ast.Name) and any(norm(t) == rn for t in n.targets):
+                        names.add(n.value.id)
+                    elif isinstance(n, ast.Assign) and isinstance(n.value, ast.Tuple) and isinstance(n.targets[0], ast.Tuple) and len(n.value.elts) == len(n.targets[0].elts):
+                        for t, v in zip(n.targets[0].elts, n.value.elts):
+                            if norm(t) == rn and isinstance(v, ast.Name):
+                                names.add(v.id)
+                muts = []
+                for n in walk_no_nested(f.node):
+                    if isinstance(n, ast.AugAssign) and norm(n.target) in names:
+                        muts.append(norm(n))
+                    elif isinstance(n, ast.Assign) and any(isinstance(t, ast.Subscript) and norm(t.value) in names for t in n.targets):
+                        muts.append(norm(n))
+                    elif isinstance(n, ast.Expr) and isinstance(n.value, ast.Call) and isinstance(n.value.func, ast.Attribute) and norm(n.value.func.value) in names and n.value.func.attr in MUT:
+                        muts.append(norm(n))
+                ok = not muts
+                ctx.ob("IUP-ref", f.where, f"{norm(c)[:80]}: reference `{rn}`", ok, "" if ok else f"`{rn}` is modified in this function ({muts[0][:60]}): later tuples are interpolated against an already-varied outline")
+
+ALL_C08.append(iup_reference)
